@@ -337,7 +337,7 @@ def execute_tasks_with_dependencies(
             and "shutdown" in task_dict.keys()
             and task_dict["shutdown"]
         ):
-            while len(wait_lst) > 0:
+            while len(wait_lst) > 0 and _executor_is_alive(executor=executor):
                 # tasks still waiting for their inputs have to be forwarded before the executor is shut down
                 number_waiting = len(wait_lst)
                 wait_lst = _submit_waiting_task(
@@ -374,6 +374,25 @@ def execute_tasks_with_dependencies(
         else:
             # If there is nothing else to do, sleep for a moment
             sleep(refresh_rate)
+
+
+def _executor_is_alive(executor: ExecutorBase) -> bool:
+    """
+    Check if at least one thread of the executor is still alive, so the tasks submitted to it can still be processed.
+
+    Args:
+        executor (ExecutorBase): Executor to execute the tasks with after the dependencies are resolved.
+
+    Returns:
+        bool: True if a thread of the executor is alive, False if all threads terminated or the executor was shut down.
+    """
+    process = executor._process
+    if process is None:
+        return False
+    elif isinstance(process, list):
+        return any(p.is_alive() for p in process)
+    else:
+        return process.is_alive()
 
 
 def _get_backend_path(
